@@ -4,7 +4,7 @@
         /// a variant is returned only for its own control field, with what its packet type decodes on its own
         open spec fn parse_ok(b: Seq<u8>, v: Self) -> bool {
             match v {
-                Self::Ack(x) => b.len() >= 2 && b[0] == 128 && b[1] == 0 && <crate::packets::Ack as zvt_builder::ZvtSerializer>::zd_ok(b, x),
+                Self::Ack(x) => b.len() >= 2 && b[0] == 128 && b[1] == 0 && zvt_builder::tid_of(x) == 8 /* packets::Ack */ && zvt_builder::zd_ok_of(b, x),
             }
         }
         /// the command's reply set
